@@ -9,3 +9,6 @@ import LexVerif.Spec.Shortest
 import LexVerif.Model.Format
 import LexVerif.Model.WriteOpts
 import LexVerif.Model.FormatDecimal
+import LexVerif.Model.Iter
+import LexVerif.Model.ParseNumber
+import LexVerif.Model.Ops.ParseFloat
